@@ -1,5 +1,6 @@
 import Sif.Spec.C15
 import Sif.Proofs.Except
+set_option linter.unusedSimpArgs false
 /-
   Helper lemmas for C15 (unlock bookkeeping).
 -/
